@@ -2234,7 +2234,7 @@ class StateEngine(object):
                     # https://docs.python.org/3/library/fnmatch.html
                     # Change the \ escape to fnmatch [seq] escape and also
                     # escape [ to allow things like a literal [hello]
-                    value = value.replace("[", "[[]").replace("\\*", "[*]")
+                    value = value.replace("[", "[[]").replace("?", "[?]").replace("\\*", "[*]")
                     if fnmatch.fnmatch(variable, value):
                         return next
 
